@@ -7,12 +7,15 @@ package main
 import (
 	"encoding/json"
 	"fmt"
+	"io"
 	"os"
 	"sort"
+	"strings"
 
 	config2 "github.com/openGemini/openGemini/lib/config"
 	"github.com/openGemini/openGemini/lib/util/lifted/influx/httpd"
 	"github.com/openGemini/openGemini/lib/util/lifted/influx/httpd/config"
+	"github.com/openGemini/openGemini/lib/util/lifted/influx/influxql"
 )
 
 type entry struct {
@@ -26,7 +29,84 @@ type table struct {
 	Routes    []entry `json:"routes"`
 }
 
+// ---- `c19 stmts`: the statement texts of the /query matrix (JSON list of {label, sql} on stdin) through the REAL
+// parser (the calls serveQuery makes) and the REAL RequiredPrivileges methods: Go type and privilege entries of every
+// statement, one JSON object per text on stdout.
+type stmtIn struct {
+	Label string `json:"label"`
+	SQL   string `json:"sql"`
+}
+
+type privOut struct {
+	Admin  bool   `json:"admin"`
+	Rwuser bool   `json:"rwuser"`
+	Name   string `json:"name"`
+	Priv   int    `json:"priv"`
+}
+
+type stmtOut struct {
+	Type  string    `json:"type"`
+	Privs []privOut `json:"privs"`
+	Err   string    `json:"err,omitempty"`
+}
+
+type textOut struct {
+	Stmts string    `json:"stmts_of"`
+	Label string    `json:"label"`
+	Err   string    `json:"err,omitempty"`
+	List  []stmtOut `json:"list"`
+}
+
+func stmtsMode() {
+	data, err := io.ReadAll(os.Stdin)
+	if err != nil {
+		fmt.Fprintln(os.Stderr, err)
+		os.Exit(1)
+	}
+	var in []stmtIn
+	if err := json.Unmarshal(data, &in); err != nil {
+		fmt.Fprintln(os.Stderr, err)
+		os.Exit(1)
+	}
+	enc := json.NewEncoder(os.Stdout)
+	for _, it := range in {
+		o := textOut{Stmts: it.SQL, Label: it.Label, List: []stmtOut{}}
+		func() {
+			defer func() {
+				if e := recover(); e != nil {
+					o.Err = fmt.Sprintf("panic: %v", e)
+				}
+			}()
+			p := influxql.NewParser(strings.NewReader(it.SQL))
+			defer p.Release()
+			yy := influxql.NewYyParser(p.GetScanner(), p.GetPara())
+			yy.ParseTokens()
+			q, err := yy.GetQuery()
+			if err != nil {
+				o.Err = err.Error()
+				return
+			}
+			for _, st := range q.Statements {
+				so := stmtOut{Type: strings.TrimPrefix(fmt.Sprintf("%T", st), "*influxql."), Privs: []privOut{}}
+				ps, err := st.RequiredPrivileges()
+				if err != nil {
+					so.Err = err.Error()
+				}
+				for _, e := range ps {
+					so.Privs = append(so.Privs, privOut{e.Admin, e.Rwuser, e.Name, int(e.Privilege)})
+				}
+				o.List = append(o.List, so)
+			}
+		}()
+		_ = enc.Encode(o)
+	}
+}
+
 func main() {
+	if len(os.Args) > 1 && os.Args[1] == "stmts" {
+		stmtsMode()
+		return
+	}
 	enc := json.NewEncoder(os.Stdout)
 	for _, lk := range []bool{false, true} {
 		for _, flux := range []bool{false, true} {
